@@ -153,6 +153,8 @@ def check(prop, tier, seed, replay=None):
     for (case, o, what) in extra:
         report_failure(case, o, what)
     only_model = [i for i in model_fail if i not in set(spec_fail)]
+    if [v for v in violations if not v["nofail"]]:
+        only_model = []      # concrete failing inputs were already found
     for i in only_model[:5]:
         key = mod.finding_key(cases[i], obs[i]) if hasattr(mod, "finding_key") else None
         if key is not None and key in kmap:
